@@ -113,7 +113,7 @@ def run_c08(tier, seed):
     broken = prep(chk, "C08")
     rng = random.Random(seed)
     cases = []
-    def add(pw, seqs, order, reduced, desc_extra=""):
+    def add(pw, seqs, order, reduced, desc_extra="", tls=None, rule=None):
         """seqs: per connection list of symbols; order: list of connection indices"""
         pos = [0] * len(seqs)
         steps, hist = [], [[] for _ in seqs]
@@ -124,7 +124,9 @@ def run_c08(tier, seed):
         for ci in range(len(seqs)):
             steps.append((ci, "e"))
         desc = "pw=%r " % pw + " | ".join("c%d: %s" % (ci, " ; ".join(h[0] for h in hs)) for ci, hs in enumerate(hist)) + " order=" + "".join(map(str, order)) + desc_extra
-        cases.append(dict(line=L.mkcase(steps, pw=pw, conns=len(seqs), app=[b"myapp"], default="mb(76)"), pw=pw, hist=hist, desc=desc[:400]))
+        if tls:
+            desc = "[TLS connection%s] " % (", certificate rule" if rule else "") + desc
+        cases.append(dict(line=L.mkcase(steps, pw=pw, conns=len(seqs), app=[b"myapp"], default="mb(76)", tls=tls, rule=rule), pw=pw, hist=hist, desc=desc[:400]))
     pws = [b"secret", b"pw", b"P\r\nw\x00d!"] if tier == "quick" else [b"secret", b"pw", b"P\r\nw\x00d!", b"a", b"correct horse battery staple"]
     for pw in pws:
         full = c08_symbols(rng, pw)
@@ -139,6 +141,13 @@ def run_c08(tier, seed):
             for b in red:
                 for c in red:
                     add(pw, [[a, b, c]], [0, 0, 0], True)
+        # the same gate on a TLS connection (the state `receive` gets after the handshake): without and with a client-certificate
+        # rule that the connection satisfies - a verified certificate is not a password
+        for tls, rule in (["n"], None), (["c" + L.hx(b"trusted-client")], b"trusted-client"):
+            for a in red:
+                add(pw, [[a]], [0], True, tls=tls, rule=rule)
+                for b in red:
+                    add(pw, [[a, b]], [0, 0], True, tls=tls, rule=rule)
         # two connections: histories of length <= 2 each over the reduced alphabet x ALL interleavings
         small = [s for s in red if s[0] in ("AUTH %r" % pw, "AUTH %r" % (pw + b"1"), "AUTH %r" % b"", "GET k", "PING")]
         for h0 in itertools.product(small, repeat=2):
@@ -205,6 +214,9 @@ def c13_request(rng, pw):
     r = rng.random()
     if r < 0.3:
         return ("SELECT", [rng.choice([b"0", b"1", b"2", b"7", b"15", b"-1", b"abc", b"", b"9223372036854775807", b"+3", b"007"])])
+    if r < 0.5 and r >= 0.45 and pw is not None:
+        # changing the configured password at run time says nothing about the OTHER connections' authorization
+        return ("CONFIG", [b"SET", b"requirepass", rng.choice([b"newpw", pw, b""])])
     if r < 0.45 and pw is not None:
         if rng.random() < 0.3:      # the two-argument form: its user name must stay with the connection that sent it
             return ("AUTH", rng.choice([[b"alice", b"wrong"], [b"alice", pw], [b"", pw], [b"default", pw], [b"bob", b""]]))
@@ -283,6 +295,11 @@ def run_c13(tier, seed):
             u1 = [("AUTH", [pw]), ("SELECT", [b"2"]), ("SET", [b"b", b"2"])]
             for order in interleavings([3, 3]):
                 add(pw, [u0, u1], order, False, desc="[systematic user] ")
+            # CONFIG SET requirepass on one connection: an unauthenticated connection stays out, an authenticated one stays in
+            a0 = [("AUTH", [pw]), ("CONFIG", [b"SET", b"requirepass", b"newpw"]), ("GET", [b"a"])]
+            for other in ([("GET", [b"a"]), ("SET", [b"b", b"1"]), ("GET", [b"b"])], [("AUTH", [pw]), ("SELECT", [b"5"]), ("SET", [b"b", b"2"])]):
+                for order in interleavings([3, 3]):
+                    add(pw, [a0, other], order, False, desc="[systematic config] ")
     # sequential reuse: a connection ends, the next one starts afterwards and must see the defaults (db 0, no user data)
     for _ in range(60 if tier == "quick" else 600):
         pw = rng.choice([None, None, b"secret"])
@@ -344,6 +361,17 @@ def run_c13(tier, seed):
 # ------------------------------------------------------------------------------------------ C19 (loop half; churn half in lifecycle.py)
 def run_c19_conn(chk, rng, tier):
     cases = outcome_cases(rng, 1200 if tier == "quick" else 12000, tier)
+    # server Stop while a reply is waiting for a client that has stopped reading (and while idle / mid-request): Stop returns,
+    # the socket is closed, the registry is empty
+    bigv = bytes((i * 7 + 1) % 251 for i in range(5000))
+    for cap in (0, 10, 4000):
+        for pre in ([("GET", [b"bigk"])], [("GET", [b"bigk"]), ("PING", []), ("GET", [b"bigk"])]):
+            steps = [(0, "s%d" % cap), (0, "g" + L.hx(b"".join(G.request_bytes(n_, a_) for n_, a_ in pre))), (0, "S")]
+            cases.append(dict(line=L.mkcase(steps, tbl={"Get:" + L.hx(b"bigk"): "mb(" + L.hx(bigv) + ")"}, default="ms(4f4b)"), endk="stop-while-write-blocked", nocorr=True,
+                              desc="client stops reading (%d bytes of buffer left), sends %s, then the server is stopped [end: Stop]" % (cap, " ; ".join(n_ for n_, _ in pre))))
+    for data in (b"", G.request_bytes("PING", []), G.request_bytes("PING", []) + b"*2\r\n$3\r\nGET"):
+        steps = ([(0, "f" + L.hx(data))] if data else [(0, "f" + L.hx(G.request_bytes("ECHO", [b"x"])))]) + [(0, "S")]
+        cases.append(dict(line=L.mkcase(steps, default="ms(4f4b)"), endk="stop-idle", nocorr=True, desc="connection idle or inside a request, then the server is stopped [end: Stop]"))
     good = run_cases(chk, cases)
     validated, ends = 0, {}
     for c in good:
@@ -357,7 +385,7 @@ def run_c19_conn(chk, rng, tier):
         if evs.count("CLOSE") != 1:
             chk.violation("close-count", "the socket was closed %d times :: %s" % (evs.count("CLOSE"), c["desc"]), dict(case=c["line"], desc=c["desc"]))
             continue
-        if not corr(chk, c):
+        if not c.get("nocorr") and not corr(chk, c):          # after Stop the model (which has no Stop) and the server legitimately differ
             continue
         validated += 1
         ends[c["endk"]] = ends.get(c["endk"], 0) + 1
@@ -508,6 +536,20 @@ def run_c07(tier, seed):
         validated += 1
         by[c["handler"]] += 1
         distinct.add(c["desc"])
+    # (d) real sockets: a long-lived witness connection while two connections loop CONFIG SET and twelve goroutines connect / PING / close
+    import lifeprops
+    wrows, wo = lifeprops.run_mode(chk, "witness", ["3" if tier == "quick" else "20"], timeout=120)
+    for r in wrows:
+        if r.get("first_failure"):
+            chk.violation("witness-under-churn", "while other connections ran CONFIG SET in a loop and clients connected and disconnected, a long-lived connection stopped getting correct "
+                          "replies: %s (after %d rounds, %d CONFIG SETs, %d short connections)" % (r["first_failure"][:200], r.get("witness_rounds", 0), r.get("config_sets", 0), r.get("churn", 0)), dict(row=r))
+        elif not r.get("stop_returned", True):
+            chk.violation("stop-after-churn", "Stop did not return after the CONFIG SET / connection churn workload", dict(row=r))
+        else:
+            validated += 1
+        chk.coverage["witness_under_churn"] = dict(rounds=r.get("witness_rounds"), config_sets=r.get("config_sets"), short_connections=r.get("churn"))
+    if not wrows and not chk.violations:
+        chk.violation("incomplete", "the witness run produced no result: %s" % wo[-300:], dict(output=wo[-2000:]), True)
     if broken and not chk.violations:
         chk.violation("proof-broken", broken, dict(broken=broken, theorem="GRP.C07"), True)
     chk.coverage.update(
